@@ -53,7 +53,8 @@ func relation(p world.Path, others map[string]world.Path) string {
 // OracleC01 compares the device state with the merge model (DESIGN C01 / A.1).
 func OracleC01(rc *sim.RunCtx, w *world.World, m *Model, step int, tx *TxSpec) {
 	winners := m.choiceWinners()
-	all := m.AllPaths(w.Dev.State)
+	dev := w.Dev.State.WithImpliedPresence(w.SI)
+	all := m.AllPaths(dev)
 	keys := make([]string, 0, len(all))
 	for k := range all {
 		keys = append(keys, k)
@@ -66,8 +67,14 @@ func OracleC01(rc *sim.RunCtx, w *world.World, m *Model, step int, tx *TxSpec) {
 	for _, k := range keys {
 		p := all[k]
 		exp := m.Expected(p, winners)
-		got, present := w.Dev.State[k]
+		got, present := dev[k]
 		f := map[string]string{"path": k, "reason": exp.Reason, "node": p.Keyless()}
+		if n := w.SI.Node(p); n != nil && n.Kind == world.KContainer && n.Presence && present && exp.Kind != ExpValue {
+			// a presence container implied by existing descendants is judged through those descendants
+			if _, explicit := w.Dev.State[k]; !explicit || hasLeafBelow(w.Dev.State, p) {
+				continue
+			}
+		}
 		if n := w.SI.Node(p); n != nil && n.IsKeyLeaf() {
 			f["keyleaf"] = "true"
 		}
@@ -123,6 +130,15 @@ func OracleC01(rc *sim.RunCtx, w *world.World, m *Model, step int, tx *TxSpec) {
 			}
 		}
 	}
+}
+
+func hasLeafBelow(s world.DevState, p world.Path) bool {
+	for _, l := range s {
+		if len(l.Path) > len(p) && l.Path.HasPrefix(p) {
+			return true
+		}
+	}
+	return false
 }
 
 func renderEdits(tx *TxSpec) string {
